@@ -543,6 +543,9 @@ def main():
     traces, problems, policy = [], [], []
     lens = inp.get("lens") or LENS
     for i in range(inp["n"]):
+        # the library draws its masking keys from the global generator: seeded per scenario, so that a run is reproducible octet
+        # for octet (cut positions inside masked frames depend on the octets)
+        random.seed(seed * 1000003 + inp.get("shard", 0) * 7919 + i)
         sc = Scenario(rng, inp.get("profile", "c01"), lens)
         try:
             sc.run()
